@@ -179,7 +179,7 @@ func (h *MultiHandler) verifyBroadcastMessage(msg *Message) error {
 	}
 
 	// store the broadcast message for this round
-	if err = r.(round.BroadcastRound).StoreBroadcastMessage(roundMsg); err != nil {
+	if err = safely(func() error { return r.(round.BroadcastRound).StoreBroadcastMessage(roundMsg) }); err != nil {
 		return fmt.Errorf("round %d: %w", r.Number(), err)
 	}
 
@@ -219,15 +219,27 @@ func (h *MultiHandler) verifyMessage(msg *Message) error {
 	}
 
 	// verify message for round
-	if err = r.VerifyMessage(roundMsg); err != nil {
+	if err = safely(func() error { return r.VerifyMessage(roundMsg) }); err != nil {
 		return fmt.Errorf("round %d: %w", r.Number(), err)
 	}
 
-	if err = r.StoreMessage(roundMsg); err != nil {
+	if err = safely(func() error { return r.StoreMessage(roundMsg) }); err != nil {
 		return fmt.Errorf("round %d: %w", r.Number(), err)
 	}
 
 	return nil
+}
+
+// safely runs a round's verification / storage of a peer's message. These run on attacker
+// controlled content; a panic in there (e.g. a field the round forgot to nil-check) must be the
+// sender's fault, not a crash of the honest party.
+func safely(f func() error) (err error) {
+	defer func() {
+		if p := recover(); p != nil {
+			err = fmt.Errorf("panic while processing message: %v", p)
+		}
+	}()
+	return f()
 }
 
 func (h *MultiHandler) finalize() {
